@@ -87,7 +87,7 @@ def plan(rng, idx, tier):
         for j in range(ng):
             gr = r.sub('g', j)
             bad = (j == bad_at) or (i in bad_src and gr.chance(0.3))
-            ccfg = gcontent.ContentCfg(max_nodes=gr.pick([1, 2, 3, 4]),
+            ccfg = gcontent.ContentCfg(max_nodes=gr.weighted([(1, 3), (2, 3), (3, 3), (4, 3), (9, 1)]),
                                        invalid_roles=(gr.pick([0.3, 0.6, 1.0]) if bad else 0.0),
                                        p_inverted_attr=0.05,
                                        extra_edge_roles=[gmodels.top_role(spec)] if gr.chance(0.3) else [])
